@@ -20,6 +20,8 @@ def gen_values(rng, n, kind):
         return [round(x * 0.5 + 0.25, 2) for x in rng.sample(range(0, 60), n)]
     if kind == "tiny":           # distinct floats that are closer together than any absolute tolerance (noise powers, delays)
         return [x * 1e-9 for x in rng.sample(range(1, 40), n)]
+    if kind == "mixed":          # a grid that numpy would coerce to one type: it must reach the user iteration as written
+        return rng.sample([0, "auto", 2.5, True, None, 7, "x", 1.0e-3], n)
     return rng.sample(["a", "b", "qpsk", "x1", "zf", "mmse", "u"], n)
 
 
@@ -31,8 +33,8 @@ def gen_config(rng, max_vars, rep_choices, allow_none_name=False):
         prod = 1
         for nm in names:
             ln = rng.choice([1, 2, 2, 3, 3, 4])
-            kind = rng.choice(["int", "int", "float", "float", "str", "str", "tiny"])
-            unpacked[nm] = {"values": gen_values(rng, ln, kind), "array": kind != "str" and rng.random() < 0.5}
+            kind = rng.choice(["int", "int", "float", "float", "str", "str", "tiny", "mixed"])
+            unpacked[nm] = {"values": gen_values(rng, ln, kind), "array": kind not in ("str", "mixed") and rng.random() < 0.5}
             prod *= ln
         if prod <= max_vars:
             break
@@ -142,7 +144,11 @@ def mutate_config(rng, cfg):
         k = rng.choice(sorted(c2["unpacked"]))
         vals = c2["unpacked"][k]["values"]
         i = rng.randrange(len(vals))
-        vals[i] = (max(v for v in vals) + 3) if not isinstance(vals[i], str) else vals[i] + "_x"
+        nums = [v for v in vals if isinstance(v, (int, float)) and not isinstance(v, bool)]
+        if isinstance(vals[i], str):
+            vals[i] = vals[i] + "_x"
+        else:
+            vals[i] = (max(nums) if nums else 40) + 3          # a value that is in no grid
     elif kind == "unpack_to_fixed":
         k = rng.choice(sorted(c2["unpacked"]))
         spec = c2["unpacked"].pop(k)
